@@ -37,7 +37,7 @@ Proj(e) ==
   LET base ==
         CASE e.op = "SOp" -> <<e.op, e.cls, e.h, IF "b" \in DOMAIN e THEN e.b ELSE Present(e.res)>>
           [] e.op = "WOp" /\ e.k = "count" -> <<e.op, e.k, e.n, e.b>>
-          [] e.op = "WOp" /\ e.k \in {"drain", "joinmut"} -> <<e.op, e.k, [j \in 1..Len(e.items) |-> e.items[j][1]]>>
+          [] e.op = "WOp" /\ e.k \in {"drain", "joinmut", "restrict"} -> <<e.op, e.k, [j \in 1..Len(e.items) |-> e.items[j][1]]>>
           [] e.op = "WOp" /\ e.k = "slice" ->
                IF e.kind = "vec" THEN <<e.op, e.k, e.kind, [j \in 1..Len(e.items) |-> e.items[j][1]]>>
                ELSE <<e.op, e.k, e.kind, [j \in 1..Len(e.vals) |-> IF e.vals[j] = <<0, 0>> THEN 0 - 2 ELSE Owner(e.obs, e.vals[j])]>>
@@ -59,14 +59,16 @@ Cmp(evs, j, ll, bad) ==
           /\ (ll > Len(Rec) \/ Rec[ll].op # "SOp" \/ Rec[ll].h # evs[j].h \/ Rec[ll].cls # evs[j].cls)
        THEN Cmp(evs, j + 1, ll, bad)
   \* ... and whole-storage operations a wrapper does not offer (slot views, parallel mutable joins)
-  ELSE IF evs[j].op = "WOp" /\ evs[j].k \in {"slice", "joinmut"} /\ (ll > Len(Rec) \/ Rec[ll].op # "WOp" \/ Rec[ll].k # evs[j].k)
+  ELSE IF evs[j].op = "WOp" /\ evs[j].k \in {"slice", "joinmut", "restrict"} /\ (ll > Len(Rec) \/ Rec[ll].op # "WOp" \/ Rec[ll].k # evs[j].k)
        THEN Cmp(evs, j + 1, ll, bad)
   ELSE IF ll > Len(Rec) \/ Rec[ll].op \in {"Reset", "DropWorld"} THEN [l |-> ll, bad |-> bad + 1]
   ELSE IF Same(evs[j], Rec[ll]) THEN Cmp(evs, j + 1, ll + 1, bad)
   ELSE Cmp(evs, j + 1, ll + 1, bad + 1)
 
 \* (sets of the model's operations arrive as JSON arrays)
-Fix(op) == IF "sel" \in DOMAIN op THEN [op EXCEPT !.sel = {op.sel[i] : i \in 1..Len(op.sel)}] ELSE op
+Fix(op) == IF "sel" \in DOMAIN op THEN [op EXCEPT !.sel = {op.sel[i] : i \in 1..Len(op.sel)}]
+           ELSE IF "fm" \in DOMAIN op THEN [op EXCEPT !.fm = {op.fm[i] : i \in 1..Len(op.fm)}, !.wr = {op.wr[i] : i \in 1..Len(op.wr)}]
+           ELSE op
 
 RECURSIVE Run(_, _, _, _, _)
 Run(st, ops, j, ll, bad) ==
